@@ -40,7 +40,9 @@ def gen_cases(rng, tier):
             else:
                 ops.append(["get", idxs, sz])
         v0 = rng.choice([0, 0, rng.getrandbits(40), rng.getrandbits(130)])
-        cases.append({"kind": "bits", "via": rng.choice(["bitarray", "memory"]), "v0": v0, "ops": ops})
+        via = rng.choice(["bitarray", "memory", "memory_fresh"])
+        # memory_fresh: the key does not exist yet (v0 = 0) and another never-written key has just been incremented
+        cases.append({"kind": "bits", "via": via, "v0": 0 if via == "memory_fresh" else v0, "ops": ops})
     if tier == "thorough":  # exhaustive sub-space: all (index<64, size<=6, |by|<=70) on a fixed seed array
         seed = 0x5A5A_F00F_1234_ABCD_0F0F_3C3C_9999_7777_1111_EEEE_8888_5555_AAAA_2468_1357_FFFF_0000_FEDC_BA98_7654_3210_0123_4567_89AB_CDEF
         for size in range(1, 7):
@@ -116,14 +118,19 @@ def run_impl(case):
             from cashews.backends.memory import Memory
             mem = Memory(check_interval=0)
             await mem.init()
-            mem._set("bits", Bitarray(str(case["v0"])))
+            if case["via"] == "memory_fresh":
+                await mem.incr_bits("other", 0, 1, 5, size=3, by=3)
+                await mem.get_bits("third", 0, 2, size=2)
+            else:
+                mem._set("bits", Bitarray(str(case["v0"])))
             outs = []
             for op in case["ops"]:
                 if op[0] == "incr":
                     outs.append(list(await mem.incr_bits("bits", *op[1], size=op[2], by=op[3])))
                 else:
                     outs.append(list(await mem.get_bits("bits", *op[1], size=op[2])))
-            final = (await mem._get("bits")).to_int()
+            fin = await mem._get("bits")
+            final = fin.to_int() if fin is not None else 0
             await mem.close()
             return {"outs": outs, "final": final}
         return vclock.run(go)
